@@ -27,7 +27,7 @@ var (
 	intGridThorough = []int64{-1, 0, 1, 2, 3, 6, 7, 9, 10, 11, 23, 24, 25, 52, 53, 54, 99, 100, 255, 256, 1000, 65535, 65536, 4294967295}
 	ptrGrid         = []int64{-1 /* nil */, 0, 1, 3, 6, 7}
 	valuesGrid      = [][]string{
-		nil, {"a"}, {"a", "b"}, {""}, {"it's"}, {"a,b", "c"}, {"a','b"}, {"'q'"}, {`"d"`}, {"x'"}, {"'y"}, {"A B", "c)"}, {`back\slash`, "ü"},
+		nil, {"a"}, {"a", "b"}, {""}, {"it's"}, {"a,b", "c"}, {"a','b"}, {"'q'"}, {`"d"`}, {"x'"}, {"'y"}, {"A B", "c)"}, {`back\slash`, "ü"}, {","}, {",", "b"}, {"a", ",", "b"}, {",x", "y,"},
 	}
 )
 
@@ -190,6 +190,10 @@ func gridTypes(o *dops, tier string) []gtype {
 		if st != "ok" || t0 == nil {
 			continue
 		}
+		if s.RType != nil { // specs selected by RType (mysql enum/set): build the RType value itself
+			t0 = reflect.New(s.RType).Interface().(schema.Type)
+			t0 = setT(t0, s.T)
+		}
 		if o.name == "postgres" && s.ToSpec != nil { // the interval family: the spec name is the interval field
 			f := strings.ToUpper(strings.ReplaceAll(s.T, "_", " "))
 			if f == "INTERVAL" {
@@ -197,10 +201,6 @@ func gridTypes(o *dops, tier string) []gtype {
 			}
 			six := 6
 			t0 = &postgres.IntervalType{T: "interval", F: f, Precision: &six}
-		}
-		if s.RType != nil { // specs selected by RType (mysql enum/set): build the RType value itself
-			t0 = reflect.New(s.RType).Interface().(schema.Type)
-			t0 = setT(t0, s.T)
 		}
 		// "spec": only the parameters the spec declares vary (these are types of the dialect);
 		// "specx": every field varies (model tie only).
